@@ -79,7 +79,7 @@ setup(const EVP_CIPHER *cph, jose_cfg_t *cfg, const json_t *jwe,
         if (push(ecc, NULL, &tmp, (uint8_t *) ".", 1) <= 0)
             goto error;
 
-        if (push(ecc, NULL, &tmp, (uint8_t *) aad, prtl) <= 0)
+        if (push(ecc, NULL, &tmp, (uint8_t *) aad, aadl) <= 0)
             goto error;
     }
 
